@@ -49,6 +49,10 @@ def item_strategy(item, tier):
 
 @st.composite
 def _random(draw):
+    # a quarter of the random cases are monolayers (the property names them as a class of their own; by count they are 40 of
+    # ~1100 combinations)
+    if draw(st.integers(0, 3)) == 0:
+        return draw(mcm.case_strategy([c for c in combos() if c["form"] == "monolayer"]))
     return draw(mcm.case_strategy(combos()))
 
 
@@ -77,6 +81,11 @@ def run_case(desc):
         unit = gm.monolayer(c["mat"])
         s = unit.repeat((c["rep"][0], c["rep"][1], 1))
         want_pbc = 2
+        if desc.get("mono_ttt"):
+            # the usual storage form of a monolayer in a plane-wave code: fully periodic box with vacuum (16 A + thickness);
+            # with the presentation's translation the layer may lie across the periodic boundary of the vacuum axis
+            s.set_pbc(True)
+            out.cls("monolayer:ttt-box")
     else:
         s, why = gm.make(c["mat"], c["form"], c["facet"], c["layers"], c["pbcz"])
         if s is None:
